@@ -73,6 +73,18 @@ func c19Step(x *engine.Exec) []engine.Failure {
 	if len(x.Res.Events) > 0 {
 		x.Cnt.Inc("transition.with_events")
 	}
+	if x.Op.K == world.KBlock {
+		paid := 0
+		prev, next := x.Prev.Snap(), x.Next.Snap()
+		for d := range next.DelBal {
+			if !next.DelBal[d].Equal(prev.DelBal[d]) {
+				paid++
+			}
+		}
+		if paid >= 2 {
+			x.Cnt.Inc("endblock.paid_two_or_more_delegators")
+		}
+	}
 	if x.Res.Rejected {
 		x.Cnt.Inc("transition.rejected_compared")
 	}
@@ -376,9 +388,14 @@ func init() {
 			}
 			s2 := &engine.Scenario{
 				Property: "C19", Name: "c19-packing", Cfg: c07Config(), Stores: world.ModuleStores,
-				Seeds: [][]world.Op{c07Seed}, ClassNames: classNames, Budgets: tierPick(tier, []int{2, 1, 0, 1, 0}, []int{3, 2, 0, 2, 0}), MaxDepth: tierPick(tier, 3, 5),
+				// second seed: three delegator/validator pairs undelegated and two redelegated in ONE block, now one block short of
+				// maturity - the next end of block pays several delegators and drops several entries at once
+				Seeds: [][]world.Op{c07Seed, append(append([]world.Op{}, c07Seed...), opBlock(1),
+					opUnd(0, 0, "aaa", "300"), opUnd(1, 0, "aaa", "200"), opUnd(1, 2, "aaa", "100"), opUnd(0, 1, "bbb", "50"),
+					opRed(0, 0, 1, "aaa", "70"), opRed(1, 0, 2, "aaa", "20"), opBlock(3), opBlock(1))},
+				ClassNames: classNames, Budgets: tierPick(tier, []int{2, 1, 0, 1, 0}, []int{3, 2, 0, 2, 0}), MaxDepth: tierPick(tier, 3, 5),
 				Ops: c07Ops("quick"), Step: c19Step, SeedStep: true,
-				Required: []string{"transition.repeated"},
+				Required: []string{"transition.repeated", "endblock.paid_two_or_more_delegators"},
 			}
 			s3 := &engine.Scenario{
 				Property: "C19", Name: "c19-full-pipeline", Cfg: c10Config(), Stores: world.AllStores,
